@@ -980,8 +980,24 @@ func ruleR20_5(c *Check) {
 	// one increment per iteration
 	incs := 0
 	ast.Inspect(loop.Body, func(n ast.Node) bool {
-		if s, ok := n.(*ast.IncDecStmt); ok && s.Tok == token.INC {
-			incs++
+		switch s := n.(type) {
+		case *ast.IncDecStmt:
+			if s.Tok == token.INC {
+				incs++
+			}
+		case *ast.AssignStmt:
+			// n += 1  /  n = n + 1
+			if len(s.Lhs) == 1 && len(s.Rhs) == 1 && !isX(s.Lhs[0]) {
+				if s.Tok == token.ADD_ASSIGN {
+					if v, isC := w.constInt(s.Rhs[0]); isC && v == 1 {
+						incs++
+					}
+				} else if be, ok := unparen(s.Rhs[0]).(*ast.BinaryExpr); ok && s.Tok == token.ASSIGN && be.Op == token.ADD && w.norm(be.X, nil) == w.norm(s.Lhs[0], nil) {
+					if v, isC := w.constInt(be.Y); isC && v == 1 {
+						incs++
+					}
+				}
+			}
 		}
 		return true
 	})
